@@ -31,6 +31,7 @@ ASSUMPTIONS = ["joblib's threading backend runs the same split/concat code as pr
                "across n_jobs (superfluous candidates may vary with the chunking)"]
 
 PPS = ("prefix", "position", "suffix")
+KF3 = "kind=straddle-pair-membership-varies-with-presentation"
 
 
 # ------------------------------------------------------------------ record transforms
@@ -165,6 +166,19 @@ class Variants(Component):
             must, _ = c04.must_pairs(case)
         nrows = entries.n_split_rows(case, L, R, C)
 
+        spairs = []
+
+        def straddle_only(a, b):
+            """True iff every row present in only one of the two results is a pair that the
+            reference model classifies as 'straddle' (rounded measures only)."""
+            if e != "join" or case["measure"] not in ("JACCARD", "COSINE", "DICE"):
+                return False
+            if not spairs:
+                spairs.append(calls.Pairs(case))
+            P = spairs[0]
+            diff = list((a - b)) + list((b - a))
+            return bool(diff) and all(P.cat.get((r[0], r[1])) == "straddle" for r in diff)
+
         def compare(df, what, full=True):
             if df is None:
                 return
@@ -176,7 +190,18 @@ class Variants(Component):
                 if (len(df) or len(base)) and cols != cols0:
                     ctx.violation(site + ",kind=columns-vary",
                                   "%s %s: columns %r vs %r" % (who, what, cols, cols0))
-                if rows != rows0:
+                if rows != rows0 and straddle_only(rows, rows0):
+                    # KF-3: the only rows that differ are boundary pairs whose raw score is
+                    # below and whose 4-decimal score is at the threshold (membership left
+                    # open by C01/C02); the join keeps such a pair iff the filters happen not
+                    # to prune it, which depends on the chunk-local token order
+                    ctx.violation(KF3, "%s %s: boundary pairs %r are returned in one "
+                                  "presentation and not in the other"
+                                  % (who, what, sorted(set((r[0], r[1]) for r in
+                                                           list((rows - rows0)) +
+                                                           list((rows0 - rows))),
+                                                       key=repr)[:3]))
+                elif rows != rows0:
                     ctx.violation(site + ",kind=rows-vary",
                                   "%s %s: result differs from the n_jobs=1 result on the "
                                   "original presentation: only here %r, only there %r"
